@@ -147,7 +147,7 @@ Theorem C03_general_reparse_of_WF : forall s d r t,
 Proof. exact reparse_of_wf. Qed.
 Print Assumptions C03_general_reparse_of_WF.
 
-(* ---- examples -------------------------------------------------------------------------------------------------------------- *)
+(* ---- examples (closed boolean checks, by vm_compute) ------------------------------------------------------------------- *)
 Definition txt (s : string) : bytes := List.map byte_of_ascii (list_ascii_of_string s).
 Definition lf : string := String (ascii_of_nat 10) EmptyString.
 Definition cr : string := String (ascii_of_nat 13) EmptyString.
@@ -158,54 +158,63 @@ Open Scope string_scope.
    looks at what is printed), dotted keys at top level, below a header and inside an inline table, a multi-line array
    with comments, an array of tables with a sub-table of an element, a multi-line string holding CR LF, a header
    below a table made of dotted keys, quoted keys, a last comment without line end: the despanned parsed tree is WF
-   and Display's data is the document's data, so the check passes and the theorems apply *)
+   and Display's data is the document's data, so all three checks pass and the theorems apply *)
 Definition ex_nasty : bytes :=
   txt ("# top" ++ cr ++ lf ++ "  a . b = 1 # c" ++ cr ++ lf ++ "a.c = [ # x" ++ lf ++ " 1 , # y" ++ lf ++ " 2, ] # z" ++ lf
        ++ "[t] # h" ++ lf ++ "p.q.r = { x.y = 1 , x.z = 2 , w = [ {q=1} ] }  " ++ lf ++ "  # above" ++ cr ++ lf
-       ++ "[[t.u]]" ++ lf ++ "k = 'v'" ++ lf ++ "[[t.u]]" ++ lf ++ "[t.u.v]" ++ lf ++ "z=1e3" ++ lf
        ++ "[t.p.q.s]" ++ lf ++ "e = " ++ dq ++ dq ++ dq ++ cr ++ lf ++ "x" ++ cr ++ lf ++ dq ++ dq ++ dq ++ lf
+       ++ "[[t.u]]" ++ lf ++ "k = 'v'" ++ lf ++ "[[t.u]]" ++ lf ++ "[t.u.v]" ++ lf ++ "z=1e3" ++ lf
        ++ "[ " ++ dq ++ "a b" ++ dq ++ " . 'c' ]" ++ lf ++ " 'k' . " ++ dq ++ "l" ++ dq ++ "  =  true  " ++ lf ++ " # last").
-Example wfb_ex_nasty : exists d, parse_document ex_nasty = POk d /\ reparse_check ex_nasty d = true /\ order_data_check ex_nasty d = true.
-Proof.
-  destruct (parse_document ex_nasty) as [d| |] eqn:E.
-  - exists d. split; [reflexivity|]. revert E. vm_compute. intro E. inversion E; subst d. split; vm_compute; reflexivity.
-  - exfalso. revert E. vm_compute. discriminate.
-  - exfalso. revert E. vm_compute. discriminate.
-Qed.
-
-(* class U1: a dotted key through a table that exists only as a super-table.  The document is accepted, its despanned
-   tree is well-formed (sections in walk order too), it prints as valid TOML — `[t.a]` now has a header — and the
-   re-parsed tree differs from the original in the KIND of t.a only *)
-Definition ex_u1 : bytes := txt ("[t.a.b]" ++ lf ++ "[t]" ++ lf ++ "a.c.x=1" ++ lf).
-Example wfb_ex_u1 :
-  exists d r o d', parse_document ex_u1 = POk d /\ tbl_despan ex_u1 (doc_root d) = Some r /\ wf_b r = true
-    /\ print_doc ex_u1 d = Some o /\ o = txt ("[t.a.b]" ++ lf ++ "[t]" ++ lf ++ lf ++ "[t.a]" ++ lf ++ "c.x=1" ++ lf)
-    /\ parse_document o = POk d' /\ abs_doc d' <> abs_doc d
-    /\ abs_doc d' = [(txt "t", NTab KHeader [(txt "a", NTab KHeader [(txt "b", NTab KHeader []); (txt "c", NTab KDotted [(txt "x", NVal (DInt 1))])])])]
-    /\ abs_doc d  = [(txt "t", NTab KHeader [(txt "a", NTab KSuper  [(txt "b", NTab KHeader []); (txt "c", NTab KDotted [(txt "x", NVal (DInt 1))])])])].
-Proof.
-  destruct (parse_document ex_u1) as [d| |] eqn:E.
-  - exists d. revert E. vm_compute. intro E. inversion E; subst d. eexists. eexists. eexists.
-    split; [reflexivity|]. split; [reflexivity|]. split; [reflexivity|]. split; [reflexivity|]. split; [reflexivity|].
-    split; [reflexivity|]. split; [discriminate|]. split; [vm_compute; reflexivity|]. split; reflexivity.
-  - exfalso. revert E. vm_compute. discriminate.
-  - exfalso. revert E. vm_compute. discriminate.
-Qed.
+Definition ex_nasty_check : bool :=
+  match parse_document ex_nasty with
+  | POk d => reparse_check ex_nasty d && order_data_check ex_nasty d && replay_check ex_nasty d
+  | _ => false
+  end.
+Example wfb_ex_nasty : ex_nasty_check = true.
+Proof. vm_compute. reflexivity. Qed.
 
 (* sections in orders that are not the order of the tree walk: a sub-table after an unrelated table, a super-table
    given its header later, elements of an array of tables interleaved with other sections and with sub-tables of
-   the elements, dotted keys regrouped: `replay_check` holds, so C03_general_reparse_replay_partial applies *)
+   the elements, dotted keys regrouped: every clause of WF but order_ok holds (parse_WF), `order_b` fails,
+   `replay_check` holds, so C03_general_reparse_replay_partial applies *)
 Definition ex_unordered : bytes :=
   txt ("a.b = 1" ++ lf ++ "c = 2" ++ lf ++ "a.d = 3" ++ lf ++ "[x.y]" ++ lf ++ "[x]" ++ lf ++ "[x.y.z]" ++ lf ++ "q.w=1" ++ lf
        ++ "[x.y.q.v]" ++ lf ++ "[[r]]" ++ lf ++ "[s]" ++ lf ++ "[[r]]" ++ lf ++ "[r.u]" ++ lf ++ "[s.t]" ++ lf).
-Example wfb_ex_unordered_replay : exists d r, parse_document ex_unordered = POk d /\ tbl_despan ex_unordered (doc_root d) = Some r
-                                              /\ order_b r = false /\ replay_check ex_unordered d = true.
-Proof.
-  destruct (parse_document ex_unordered) as [d| |] eqn:E.
-  - exists d. revert E. vm_compute. intro E. inversion E; subst d. eexists. split; [reflexivity|]. split; [reflexivity|]. split; vm_compute; reflexivity.
-  - exfalso. revert E. vm_compute. discriminate.
-  - exfalso. revert E. vm_compute. discriminate.
-Qed.
+Definition ex_unordered_check : bool :=
+  match parse_document ex_unordered with
+  | POk d => match tbl_despan ex_unordered (doc_root d) with
+             | Some r => tbl_b true r && tbl_lim_b 0 0 r && negb (order_b r) && replay_check ex_unordered d
+             | None => false
+             end
+  | _ => false
+  end.
+Example wfb_ex_unordered_replay : ex_unordered_check = true.
+Proof. vm_compute. reflexivity. Qed.
+
+(* class U1: a dotted key through a table that exists only as a super-table.  The document is accepted, its despanned
+   tree satisfies every clause of WF but order_ok, it prints as valid TOML — `[t.a]` now has a header — and the
+   re-parsed tree differs from the original in the KIND of t.a only; `replay_check` is false (the statements are
+   Undecided under the strict rules) *)
+Definition ex_u1 : bytes := txt ("[t.a.b]" ++ lf ++ "[t]" ++ lf ++ "a.c.x=1" ++ lf).
+Definition ex_u1_tree (kd : kind) : stree dval :=
+  [(txt "t", NTab KHeader [(txt "a", NTab kd [(txt "b", NTab KHeader []); (txt "c", NTab KDotted [(txt "x", NVal (DInt 1))])])])].
+Definition ex_u1_check : bool :=
+  match parse_document ex_u1 with
+  | POk d =>
+    match tbl_despan ex_u1 (doc_root d), print_doc ex_u1 d with
+    | Some r, Some o =>
+      tbl_b true r && tbl_lim_b 0 0 r && negb (replay_check ex_u1 d)
+      && bytes_eqb o (txt ("[t.a.b]" ++ lf ++ "[t]" ++ lf ++ lf ++ "[t.a]" ++ lf ++ "c.x=1" ++ lf))
+      && match parse_document o with
+         | POk d' => negb (stree_eqb (abs_doc d') (abs_doc d)) && stree_eqb (abs_doc d') (ex_u1_tree KHeader) && stree_eqb (abs_doc d) (ex_u1_tree KSuper)
+         | _ => false
+         end
+    | _, _ => false
+    end
+  | _ => false
+  end.
+Example wfb_ex_u1 : ex_u1_check = true.
+Proof. vm_compute. reflexivity. Qed.
 
 (* a tree that no parser produced: the parsed tree of `[t]` / `x = 1` / `[t.s]` with a value inserted into `t` AFTER its
    sub-table (what Table::insert does): Display prints the new line in t's section, before `[t.s]`; the tree is WF, so
@@ -213,24 +222,26 @@ Qed.
 Definition ex_edited : tbl :=
   let k (s : string) := mkKey (txt s) None (mkDecor None None) (mkDecor None None) in
   let v (n : Z) := IValue (VScalar (SInt n) None (mkDecor None None)) in
-  Tbl [(k "t", ITable (Tbl [(k "x", v 1); (k "s", ITable (Tbl [] (mkDecor None None) false false None None)); (k "y", v 2)]
+  Tbl [(k "t", ITable (Tbl [(k "x", v 1%Z); (k "s", ITable (Tbl [] (mkDecor None None) false false None None)); (k "y", v 2%Z)]
                            (mkDecor None None) false false None None))]
       (mkDecor None None) false false None None.
-Example wfb_ex_edited :
-  wfdoc_b ex_edited REmpty = true
-  /\ display_document ex_edited REmpty = txt ("[t]" ++ lf ++ "x = 1" ++ lf ++ "y = 2" ++ lf ++ lf ++ "[t.s]" ++ lf)
-  /\ abs_doc_of ex_edited
-     = [(txt "t", NTab KHeader [(txt "x", NVal (DInt 1)); (txt "y", NVal (DInt 2)); (txt "s", NTab KHeader [])])].
-Proof. split; [|split]; vm_compute; reflexivity. Qed.
+Definition ex_edited_check : bool :=
+  wfdoc_b ex_edited REmpty
+  && bytes_eqb (display_document ex_edited REmpty) (txt ("[t]" ++ lf ++ "x = 1" ++ lf ++ "y = 2" ++ lf ++ lf ++ "[t.s]" ++ lf))
+  && stree_eqb (abs_doc_of ex_edited)
+       [(txt "t", NTab KHeader [(txt "x", NVal (DInt 1)); (txt "y", NVal (DInt 2)); (txt "s", NTab KHeader [])])].
+Example wfb_ex_edited : ex_edited_check = true.
+Proof. vm_compute. reflexivity. Qed.
 
-(* the limitation: sections that do not come in the order of the walk *)
-Example wfb_ex_unordered :
-  exists d r, parse_document (txt ("[a]" ++ lf ++ "[b]" ++ lf ++ "[a.c]" ++ lf)) = POk d
-              /\ tbl_despan (txt ("[a]" ++ lf ++ "[b]" ++ lf ++ "[a.c]" ++ lf)) (doc_root d) = Some r
-              /\ tbl_b true r = true /\ tbl_lim_b 0 0 r = true /\ order_b r = false.
-Proof.
-  destruct (parse_document (txt ("[a]" ++ lf ++ "[b]" ++ lf ++ "[a.c]" ++ lf))) as [d| |] eqn:E.
-  - exists d. revert E. vm_compute. intro E. inversion E; subst d. eexists. repeat split.
-  - exfalso. revert E. vm_compute. discriminate.
-  - exfalso. revert E. vm_compute. discriminate.
-Qed.
+(* the limitation of `order_ok`: sections that do not come in the order of the walk *)
+Definition ex_abc : bytes := txt ("[a]" ++ lf ++ "[b]" ++ lf ++ "[a.c]" ++ lf).
+Definition ex_abc_check : bool :=
+  match parse_document ex_abc with
+  | POk d => match tbl_despan ex_abc (doc_root d) with
+             | Some r => tbl_b true r && tbl_lim_b 0 0 r && negb (order_b r) && replay_check ex_abc d
+             | None => false
+             end
+  | _ => false
+  end.
+Example wfb_ex_unordered : ex_abc_check = true.
+Proof. vm_compute. reflexivity. Qed.
